@@ -69,8 +69,8 @@ func TestC09BatchedStoreFlush(t *testing.T) {
 			store, flush := re_blobstore.NewBatchedStoreBlobAccess(backend, digest.KeyWithoutInstance, sc.BatchSize, semaphore.NewWeighted(sc.Concurrency))
 
 			// Model.
-			acked := map[string]bool{}  // contents acknowledged since the last flush()
-			var pendingFaults []string  // back-end faults (inside the adapter) since the last flush()
+			acked := map[string]bool{} // contents acknowledged since the last flush()
+			var pendingFaults []string // back-end faults (inside the adapter) since the last flush()
 			ackedSinceFlush := 0
 
 			// arm draws the fault plan of one step and returns a function
